@@ -1,5 +1,6 @@
 import RzilVerif.Model.DriverText
 import RzilVerif.Model.ILSem
+import RzilVerif.Lemmas.LayoutPerm
 /-!
 # C16 — both output layouts denote the same effect
 
@@ -69,5 +70,41 @@ example :
        .decl "RzILOpEffect *" "s" (.id "e"),
        .ret (.id "s")] } := by
   rfl
+
+/-! ## The layout theorem
+
+`hoistPures` (Lemmas/LayoutPerm.lean) is the EXEC_CLASSES order of a READ_STATEMENTS item list: all inlined
+pure/bool declarations in their order (block "EXEC"), then everything else in its order (block "WRITE": effect
+declarations, and the operand declarations, comments and the return, which `denoteIL` ignores or finds anyway).
+Under the decidable side condition `LayoutWF` the hoisted body denotes the SAME term.
+`LayoutWF items = namesDistinct items && noForwardRef items && puresAvoidEffects items`:
+* inlined declarations declare pairwise distinct names,
+* no inlined right-hand side mentions a name declared by a LATER inlined declaration,
+* no pure/bool right-hand side mentions a name declared by an effect declaration anywhere.
+The proof moves each non-pure item to the right over the pure declarations that follow it, one adjacent swap of
+two independent declarations at a time (`buildEnvIL_swap`). -/
+
+/-- Hoisting under the minimal condition `LayoutIndep` (every non-pure item is independent of each pure declaration
+    that follows it). -/
+theorem hoist_denote_of_indep (b : Body) (h : LayoutIndep b.items = true) :
+    denoteIL { b with items := hoistPures b.items } = denoteIL b := by
+  simp only [denoteIL, returned_hoistPures]
+  cases returned b.items with
+  | none => rfl
+  | some r =>
+    simp only [Option.bind_eq_bind, Option.bind_some]
+    rw [Term.subst_congr (buildEnvIL_hoist b.items h []) r]
+
+/-- C16, layout part: the EXEC_CLASSES arrangement of a well-formed READ_STATEMENTS body denotes the same term. -/
+theorem hoist_denote (b : Body) (hwf : LayoutWF b.items = true) :
+    denoteIL { b with items := hoistPures b.items } = denoteIL b :=
+  hoist_denote_of_indep b (layoutIndep_of_layoutWF b.items hwf)
+
+/-- … hence the same behaviour from every state, for every fuel and interpretation of macros and sub-routines. -/
+theorem hoist_exec (b : Body) (hwf : LayoutWF b.items = true) :
+    ∀ (ms : MacroSem) (subs : SubEnv) (fuel : Nat) (σ : MState) (ea eb : ILEffect),
+      bodyEffect { b with items := hoistPures b.items } = some ea → bodyEffect b = some eb →
+      execIL ms subs fuel ea σ = execIL ms subs fuel eb σ :=
+  denote_eq_exec _ _ (hoist_denote b hwf)
 
 end Rzil
